@@ -1,0 +1,12 @@
+//go:build !verif
+// +build !verif
+
+// Package verifhook provides observation points for external verification
+// harnesses. Without the "verif" build tag every call is an empty function.
+package verifhook
+
+// Enabled reports whether the package was built with the verif tag.
+const Enabled = false
+
+// At marks an observation point. It does nothing in this build.
+func At(point string, args ...interface{}) {}
